@@ -4,6 +4,7 @@ import (
 	"bytes"
 	"testing"
 
+	stypes "github.com/pokt-network/pocket-core/store/types"
 	dbm "github.com/tendermint/tm-db"
 	"pgregory.net/rapid"
 
@@ -56,6 +57,7 @@ func TestC06(t *testing.T) {
 			extraAt := rapid.IntRange(1, nBlocks).Draw(rt, "extraAt")
 			restartAt := rapid.IntRange(0, nBlocks).Draw(rt, "restartAt") // 0 = never
 			twinDiffers := false
+			idsA := map[int64]stypes.CommitID{}
 
 			checkTransientEmpty := func(n *node, who string, v int64, when string) {
 				for i, tk := range n.tkeys {
@@ -133,6 +135,13 @@ func TestC06(t *testing.T) {
 					}
 				}
 				ida := a.commit()
+				idsA[v] = ida
+				// every persistent substore advanced by exactly one as well (its own commit id carries the block's version)
+				for i, k := range a.keys {
+					if sv := a.ms.GetCommitKVStore(k).LastCommitID().Version; sv != v {
+						c.Violation("C06/commit/substore-version-not-block-version", "block %d: substore %s reports version %d after the commit", v, h.names[i], sv)
+					}
+				}
 				idb := b.run(blkB)
 				idc := cn.run(blkC)
 
@@ -170,6 +179,42 @@ func TestC06(t *testing.T) {
 					}
 					checkTransientEmpty(cn2, "C", v, "after restart at")
 					cn = cn2
+				}
+			}
+			// history twin D: "the app hash depends only on the persistent substores' contents and history" - a node that
+			// reopens A's database at an older version k and executes blocks k+1..n again must report, for every one of
+			// them, the same commit id as A did, each advancing the multistore and every substore by exactly one, whatever
+			// already lies on disk beyond k (substores that were still empty at k included)
+			if n := h.latest(); n >= 2 && rapid.Bool().Draw(rt, "historyTwin") {
+				k := int64(rapid.IntRange(1, int(n)-1).Draw(rt, "reloadAt"))
+				c.Opf("history twin: reload A's database at version %d, re-execute %d..%d", k, k+1, n)
+				c.Label("history-twin")
+				for st := range h.names {
+					if len(h.snaps[k][st]) == 0 && len(h.snaps[n][st]) != 0 {
+						c.Label("history-twin-substore-empty-at-reload-version")
+					}
+				}
+				d := mountNode(a.db, oa, h.names, h.tnames)
+				var lerr error
+				if p := try(func() { lerr = d.ms.LoadVersion(k) }); p != nil || lerr != nil {
+					c.Violation("C06/history-twin/load-version-fails", "LoadVersion(%d) with latest %d: err=%v panic=%v", k, n, lerr, p)
+					return
+				}
+				for rv := k + 1; rv <= n; rv++ {
+					var rid stypes.CommitID
+					if p := try(func() { rid = d.run(h.blocks[rv-1]) }); p != nil {
+						c.Violation("C06/history-twin/re-execution-panics", "LoadVersion(%d) with latest %d, re-executing block %d: %v", k, n, rv, p)
+						return
+					}
+					if !sameID(rid, idsA[rv]) {
+						c.Violation("C06/history-twin/commit-id-depends-on-more-than-history", "LoadVersion(%d) with latest %d, re-executed block %d: commit %s, first execution %s", k, n, rv, idStr(rid), idStr(idsA[rv]))
+					}
+					for i, key := range d.keys {
+						if sv := d.ms.GetCommitKVStore(key).LastCommitID().Version; sv != rv {
+							c.Violation("C06/history-twin/substore-version-not-block-version", "LoadVersion(%d), re-executed block %d: substore %s reports version %d", k, rv, h.names[i], sv)
+						}
+					}
+					checkTransientEmpty(d, "D", rv, "right after re-executed commit of")
 				}
 			}
 			if twinDiffers {
